@@ -208,6 +208,14 @@ def run_case(case):
                 scale = max(float(np.max(np.abs(A0))), 1e-300)
                 err = float(np.max(np.abs(got - ref))) / scale
                 count("differential_checks")
+                if o == opt_sets[0]:
+                    # the baseline options compiled again after the other settings, in the same process
+                    if A.tobytes() != A0.tobytes():
+                        viol("state-leaks-between-compilations", f"the same options {o} compiled again after {opt_sets[1:oi]} give a different tensor on {key} "
+                             f"({kind} geometry): relative difference {err:.3e}")
+                    else:
+                        count("repeated_baseline_bitwise_equal")
+                    continue
                 if mode == "na":
                     if A.tobytes() != A0.tobytes() and err > 0:
                         viol("option-not-applicable-changes-output", f"options {o} do not apply to {key} but change the output by {err:.3e} (relative)")
@@ -304,8 +312,10 @@ def cases_for(tier, s):
             R.append({"mode": "diagonal", "recipe": {"b": "diag_dropped", "cell": cell, "p": {"what": "coefficient"}}, "option_sets": DG})
         R.append({"mode": "diagonal", "recipe": {"b": "dg_jump", "cell": cell}, "option_sets": DG})
     # ---- tolerances
-    grid = [{}, {"table_rtol": 1e-3, "table_atol": 1e-3}, {"table_rtol": 1e-12, "table_atol": 1e-12}, {"table_rtol": 1e-6, "table_atol": 1e-4},
-            {"table_rtol": 1e-9, "table_atol": 1e-14}]
+    # order matters: a very loose setting is compiled BEFORE the tight ones and the defaults are compiled again at the end, all in one
+    # process: what one compilation did to shared tables must not reach the next (the repeated baseline must be bitwise equal)
+    grid = [{}, {"table_rtol": 0.05, "table_atol": 0.05}, {"table_rtol": 1e-12, "table_atol": 1e-12}, {"table_rtol": 1e-3, "table_atol": 1e-3},
+            {"table_rtol": 1e-6, "table_atol": 1e-4}, {"table_rtol": 1e-9, "table_atol": 1e-14}, {}]
     for cell in ("triangle", "tetrahedron", "hexahedron"):
         for bname in ("stiff_nl", "stokes", "spatial_tables", "curlcurl", "dg_jump"):
             if bname == "curlcurl" and cell == "hexahedron":
@@ -328,7 +338,7 @@ def cases_for(tier, s):
         cell = cells[i % 5]
         rec = {"b": "rand", "cell": cell, "p": {"seed": [s, 10, i], "itype": ["cell", "exterior_facet", "interior_facet"][(i // 5) % 3], "arity": 2}}
         R.append({"mode": "diagonal", "recipe": rec, "option_sets": DG})
-        R.append({"mode": "tol", "recipe": dict(rec, p=dict(rec["p"], arity=(i % 3))), "option_sets": grid[:3]})
+        R.append({"mode": "tol", "recipe": dict(rec, p=dict(rec["p"], arity=(i % 3))), "option_sets": grid[:3] + [{}]})
     for i, c in enumerate(R):
         c["seed"] = [s, 1000, i]
         if i % 7 == 3:
